@@ -28,7 +28,7 @@ import PdModel.Imports
 
 namespace PyImp
 open Registry (Name Path dget dset dhas)
-open Imports (Stmt Module Project Ident)
+open Imports (Stmt Module Project Ident modIdx pathOf isPkg)
 
 inductive Val
   | mod (m : Nat)                      -- module object (index in the project)
@@ -55,8 +55,6 @@ structure St where
   heap : List ClassObj
   err : Bool
   deriving Repr, Inhabited
-
-def modIdx (proj : Project) (p : Path) : Option Nat := proj.findIdx? (fun md => md.path == p)
 
 def nsOf (s : St) (m : Nat) : Ns := s.ns.getD m []
 def inSys (s : St) (m : Nat) : Bool := s.ms.getD m .absent != .absent
@@ -115,16 +113,6 @@ def evalDotted (s : St) (m : Nat) (fr : Option Ns) : Path → Option Val
   | [] => none
   | x :: rest => match loadName s m fr x with | some v => getAttrs s v rest | none => none
 
-def isPkg (proj : Project) (t : Nat) : Bool := match proj[t]? with | some md => md.isPkg | none => false
-def pathOf (proj : Project) (t : Nat) : Path := match proj[t]? with | some md => md.path | none => []
-
-/-- the absolute name a `from` import refers to (`importlib._bootstrap._resolve_name`) -/
-def absName (proj : Project) (m : Nat) (level : Nat) (modname : Path) : Option Path :=
-  if level = 0 then some modname else
-  match Names.pythonRelativeBase (pathOf proj m) (isPkg proj m) level with
-  | none => none
-  | some b => some (b ++ modname)
-
 def fail (x : St × Option Ns) : St × Option Ns := ({ x.1 with err := true }, x.2)
 
 /-- the `_handle_fromlist` step for one name: a package that lacks the attribute imports the
@@ -171,7 +159,7 @@ def execStmt (proj : Project) (imp : St → Path → St) (m : Nat) : Path → St
           | some v => bind s1 m fr x v
   | _, .importFrom level modname name asname, (s, fr) =>
     if s.err then (s, fr) else
-    match absName proj m level modname with
+    match Imports.pyAbsName proj m level modname with
     | none => fail (s, fr)                                       -- ImportError: beyond top-level package
     | some T =>
       let s1 := imp s T
@@ -187,7 +175,7 @@ def execStmt (proj : Project) (imp : St → Path → St) (m : Nat) : Path → St
   | _, .importStar level modname, (s, fr) =>
     if s.err then (s, fr) else
     if fr.isSome then fail (s, fr) else                          -- SyntaxError: import * only allowed at module level
-    match absName proj m level modname with
+    match Imports.pyAbsName proj m level modname with
     | none => fail (s, fr)
     | some T =>
       let s1 := imp s T
